@@ -32,7 +32,9 @@ from harness.common import enc, dec, ddmin
 from harness import c11_gen as G
 
 RULE = ("well-formed templates from a grammar-directed generator (text runs incl. Unicode and stray % # $ < \\, "
-        "${} single/multi-line with leading/trailing blank lines and filter lists on the same or later lines, % control "
+        "${} single/multi-line with leading/trailing blank lines and filter lists on the same or later lines - single-line, "
+        "multi-line calls, several filters on several lines (column 1: the list is parsed as statements), short first "
+        "filter line, closing brace after long indentation on its own line -, % control "
         "blocks if/elif/else, for/else, while, try/except, with - indented, with backslash continuations, trailing "
         "comments -, <% %>/<%! %> blocks inline and multi-line at any margin with leading blank lines, comments, "
         "triple-quoted strings and long trailing whitespace, def/block/call/page/include/namespace/inherit/text tags "
@@ -728,6 +730,13 @@ def witness_cases():
     py(s, "filter", 2, s.index("|") + 1, len(" fl(1 + = 2)"), s.index("= 2"))
     s = "a\n${x |\n fl(1 + = 2)}"
     py(s, "filter", 2, s.index("|") + 1, len("\n fl(1 + = 2)"), s.index("= 2"))
+    # multi-line filter lists with a short first line and the closing brace on its own indented line
+    s = "a\n${x | h,\nfl(1 + = 2)\n          }"
+    py(s, "filter", 2, s.index("|") + 1, s.index("}") - s.index("|") - 1, s.index("= 2"))
+    s = "${x | f(1 + = 2),\ntrim\n                  }"
+    py(s, "filter", 0, s.index("|") + 1, s.index("}") - s.index("|") - 1, s.index("= 2"))
+    s = "t\r\n${ (x +\r\n y)\r\n |\r\n  n,\r\nfl(a,\r\n     b + = c),\r\nh\r\n      \r\n            } tail"
+    py(s, "filter", 3, s.index("|") + 1, s.index("}") - s.index("|") - 1, s.index("= c"))
     # indented multi-line block whose trailing whitespace is longer than its first code line
     s = "t\n<%\n    a = 1\n    b = 2 + = 3\n\n\n\n          %>\n"
     py(s, "block", 2, 4, s.index("%>") - 4, s.index("= 3"))
